@@ -3,6 +3,7 @@
 import inspect
 import random
 import sys
+import json
 import threading
 import time
 
@@ -266,15 +267,31 @@ def threads(arg):
     _fp.update(armed=True, yield_p=arg.get("yield_p", 0.05), rnd=random.Random(arg.get("seed", 0) + 1), yields=0, handoff_sites=set())
     start = threading.Barrier(n)
 
+    leaks = []
+
     def work(tid):
         try:
             start.wait(timeout=60)
+            provs = {}  # this thread's own providers, one per catalog, reused for all of the thread's runs (no provider is shared between threads)
             for j in order[tid::n]:
                 c = dict(cases[j])
                 c["want"] = []
-                results[j] = pub(observe.run_case(c))
+                prov = None
+                if c.get("metadata") is not None and c.get("provider", "dummy") == "dummy":
+                    key = json.dumps(c["metadata"], sort_keys=True)
+                    prov = provs.get(key)
+                    if prov is None:
+                        prov = provs[key] = observe.make_provider(c)
+                results[j] = pub(observe.run_case(c, provider=prov))
+                if prov is not None:
+                    left = dict(getattr(prov, "_session_metadata", {}))
+                    balance[0] += 1
+                    if left:
+                        leaks.append({"case_index": j, "thread": tid, "session_store_after_run": {str(k): [str(x) for x in v] for k, v in left.items()}})
         except Exception as e:  # harness error
             errors.append(repr(e))
+
+    balance = [0]
 
     ths = [threading.Thread(target=work, args=(i,)) for i in range(n)]
     try:
@@ -286,5 +303,5 @@ def threads(arg):
         _fp.update(armed=False, yield_p=0.0)
         _uninstall_monitor()
         sys.setswitchinterval(old)
-    return {"records": results, "errors": errors, "yields": _fp["yields"], "handoff_sites": len(_fp["handoff_sites"]),
+    return {"records": results, "errors": errors, "yields": _fp["yields"], "handoff_sites": len(_fp["handoff_sites"]), "leaks": leaks, "balance_checks": balance[0],
             "alive": sum(1 for t in ths if t.is_alive())}
